@@ -110,6 +110,25 @@ pub fn check_tokens(rs: &RefSentence) -> TestResult {
         }
         ensure_eq!(it.count(), spans.len() - k.min(spans.len()), "count() after {k} x next()");
     }
+    // An iterator that has ended reports nothing further: a consumer that searches first
+    // (any / find / position run to the end) and then goes on with the same iterator must not be
+    // handed a segment that is no token.
+    let mut it = s.iter_tokens();
+    while it.next().is_some() {}
+    for poll in 1..=3 {
+        if let Some(t) = it.next() {
+            return Err(format!(
+                "the iterator reports the token {}..{} at poll {poll} after it returned None (labels {:?})",
+                t.start(),
+                t.end(),
+                rs.labels
+            )
+            .into());
+        }
+    }
+    let mut it = s.iter_tokens();
+    let _ = it.any(|_| false);
+    ensure_eq!(it.count(), 0, "tokens left after any() ran to the end (labels {:?})", rs.labels);
     let mut buf = String::from("stale");
     s.write_tokenized_text(&mut buf);
     ensure_eq!(
